@@ -200,6 +200,44 @@ pub fn family(f: &mut dyn FnMut(G)) {
     }
 }
 
+/// the exempted names `_`, PATH and DIRECTORY as *defined* names: status x how they are referred to
+pub fn special_names_family(f: &mut dyn FnMut(G)) {
+    for name in ["_", "PATH", "DIRECTORY"] {
+        for status in 1..NSTATUS {
+            for how in 0..5 {
+                let main = match how {
+                    0 => E::lit("only"),
+                    1 => E::Seq(vec![E::lit("w"), E::r(name)]),
+                    2 => E::Seq(vec![E::lit("w"), E::Word(vec![E::lit("k="), E::r(name)])]),
+                    3 => E::Seq(vec![E::lit("w"), E::r("A")]),
+                    _ => E::lit("w"),
+                };
+                let mut stmts = vec![Stmt::Call { name: "cmd".into(), expr: main }];
+                match status {
+                    1 => stmts.push(crate::fam::def(name, body(&[], 0))),
+                    2 => stmts.push(crate::fam::spec(name, "bash", "p_bash")),
+                    3 => stmts.push(crate::fam::spec(name, "fish", "p_fish")),
+                    4 => {
+                        stmts.push(crate::fam::def(name, E::cmd("p_plain")));
+                        stmts.push(crate::fam::spec(name, "bash", "p_bash"));
+                    }
+                    _ => {
+                        stmts.push(crate::fam::spec(name, "zsh", "p_zsh"));
+                        stmts.push(crate::fam::def(name, E::cmd("p_plain")));
+                    }
+                }
+                match how {
+                    3 => stmts.push(crate::fam::def("A", body(&[name], 0))),
+                    // referred to only by a definition nobody uses
+                    4 => stmts.push(crate::fam::def("A", body(&[name], 0))),
+                    _ => {}
+                }
+                f(G { stmts });
+            }
+        }
+    }
+}
+
 pub fn run(tier: Tier) -> Report {
     let mut rep = Report::new("C15", tier, "exploration");
     let shells: Vec<Shell> = SHELLS.iter().map(|(s, _)| *s).collect();
@@ -212,6 +250,10 @@ pub fn run(tier: Tier) -> Report {
         |push| {
             let mut i = 0usize;
             family(&mut |g| {
+                push((g, i));
+                i += 1;
+            });
+            special_names_family(&mut |g| {
                 push((g, i));
                 i += 1;
             });
@@ -247,6 +289,92 @@ pub fn run(tier: Tier) -> Report {
     for (k, s, d) in &t.viol {
         rep.violation(k, s.clone(), d.clone());
     }
+    // ---- Level B: what the binary prints (main.rs sorts, labels and exempts `_` itself)
+    let mut bgs: Vec<G> = vec![];
+    special_names_family(&mut |g| bgs.push(g));
+    {
+        let mut i = 0usize;
+        let step = tier.pick(211usize, 23usize);
+        family(&mut |g| {
+            if i % step == 0 {
+                bgs.push(g);
+            }
+            i += 1;
+        });
+    }
+    let nb = bgs.len();
+    let lib_version = crate::binrun::library_version();
+    let bin_version = crate::binrun::binary_version(&crate::binrun::Scratch::new("c15v"));
+    let bres = crate::par::run(
+        4,
+        |push| {
+            for (i, g) in bgs.into_iter().enumerate() {
+                push((g, i));
+            }
+        },
+        || (crate::binrun::Scratch::new("c15"), Vec::<(String, String, J)>::new(), 0u64),
+        |st, (g, i): (G, usize)| {
+            let text = print_grammar(&g);
+            let targets: Vec<Shell> = if i < 75 { shells.clone() } else { vec![shells[i % 4]] };
+            for shell in targets {
+                let sn = pipe::shell_name(shell);
+                let path = st.0.path("g.usage");
+                std::fs::write(&path, &text).unwrap();
+                let p = path.to_string_lossy().to_string();
+                let inv = crate::binrun::Invocation::new(vec![format!("--{sn}"), "-".into(), p.clone()]);
+                let r = crate::binrun::run(&inv, &st.0);
+                st.2 += 1;
+                let stderr = String::from_utf8_lossy(&r.stderr).to_string();
+                let detail = |why: &str| J::obj(vec![("grammar", J::s(&text)), ("shell", J::s(sn)), ("why", J::s(why)), ("stderr", J::s(stderr.chars().take(1200).collect::<String>())), ("outcome", J::s(r.describe())), ("level", J::s("binary"))]);
+                if r.status != Some(0) {
+                    st.1.push(("warning-changes-exit-status".into(), format!("--{sn}: the binary {} on a grammar that only deserves warnings", r.describe()), detail("status")));
+                    continue;
+                }
+                // `path:L:C:warning: Label` lines, name read from the file at L:C
+                let mut got: Vec<(String, String)> = vec![];
+                let lines: Vec<&str> = text.lines().collect();
+                for l in stderr.lines() {
+                    let Some(rest) = l.strip_prefix(&format!("{p}:")) else { continue };
+                    let mut it = rest.splitn(3, ':');
+                    let (Some(ln), Some(col), Some(msg)) = (it.next().and_then(|x| x.parse::<usize>().ok()), it.next().and_then(|x| x.parse::<usize>().ok()), it.next()) else { continue };
+                    let Some(label) = msg.strip_prefix("warning: ") else { continue };
+                    let at = lines.get(ln.wrapping_sub(1)).and_then(|s| s.get(col.wrapping_sub(1)..)).unwrap_or("");
+                    let name: String = at.strip_prefix('<').map(|x| x.chars().take_while(|c| *c != '>' && *c != '@').collect()).unwrap_or_else(|| format!("?{at}"));
+                    got.push((label.trim().to_string(), name));
+                }
+                let want = r8::warnings(&g, shell);
+                let mut exp: Vec<(String, String)> = vec![];
+                exp.extend(want.undefined.iter().map(|n| ("Undefined".to_string(), n.clone())));
+                exp.extend(want.unused.iter().map(|n| ("Unused".to_string(), n.clone())));
+                exp.extend(want.unused_specs.iter().map(|n| ("Unused specialization".to_string(), n.clone())));
+                let mut g2 = got.clone();
+                g2.sort();
+                exp.sort();
+                if g2 != exp {
+                    st.1.push(("binary-warnings-differ".into(), format!("--{sn}: the binary prints the warnings {g2:?}, the grammar deserves {exp:?}"), detail("warning set")));
+                    continue;
+                }
+                // harmless: stdout is the script the library emits
+                if let Outcome::Ok(c) = pipe::compile(&text, shell) {
+                    if let Ok(lib) = pipe::emit(&c, shell) {
+                        if crate::binrun::normalise_version(&r.stdout, &bin_version) != crate::binrun::normalise_version(&lib, &lib_version) {
+                            st.1.push(("binary-script-differs".into(), format!("--{sn}: the script printed next to the warnings differs from the library's"), detail("script")));
+                        }
+                    }
+                }
+            }
+        },
+    );
+    let mut bruns = 0u64;
+    for (_, v, n) in bres {
+        bruns += n;
+        for (k, s_, d) in v {
+            rep.violation(&k, s_, d);
+        }
+    }
+    t.evals += bruns;
+    rep.cov("binary_grammars", J::i(nb as i64));
+    rep.cov("binary_runs", J::i(bruns as i64));
     rep.cov("evaluations", J::i(t.evals as i64));
     rep.cov("distinct_nontrivial", J::i(t.distinct.len() as i64));
     rep.cov("grammars_in_family", J::i(total as i64));
@@ -254,7 +382,7 @@ pub fn run(tier: Tier) -> Report {
     rep.cov(
         "rule",
         J::s(format!(
-            "exhaustive reference structures: names A,B,C each with status in {{undefined, plain, @bash, @fish, plain+@bash, plain+@zsh}} (6^3) x every subset of {{A,B,C,U,_,PATH}} referenced by the call variant (top level, inside a word, under |) x every subset of the acyclic references A->{{B,C,U}}, B->{{C,DIRECTORY}}, C->{{U}} in plain bodies x statement order; plus every definition DAG on 2..5 definitions in 3 statement orders (no warning expected); targets: {}. Oracle R8 by plain reachability; per case the three warning maps, the text under every warning span, and byte-equality of the script after deleting everything warned about (and other-shell definitions). distinct = distinct (grammar text, target).",
+            "exhaustive reference structures: names A,B,C each with status in {{undefined, plain, @bash, @fish, plain+@bash, plain+@zsh}} (6^3) x every subset of {{A,B,C,U,_,PATH}} referenced by the call variant (top level, inside a word, under |) x every subset of the acyclic references A->{{B,C,U}}, B->{{C,DIRECTORY}}, C->{{U}} in plain bodies x statement order; plus `_`, PATH and DIRECTORY as defined names (5 definition statuses x unreferenced / referenced at top level / inside a word / through a used / through an unused definition); plus every definition DAG on 2..5 definitions in 3 statement orders (no warning expected); targets: {}. Oracle R8 by plain reachability; per case the three warning maps, the text under every warning span, and byte-equality of the script after deleting everything warned about (and other-shell definitions). Level B: the real binary on the special-names family (all targets) and every 211th (thorough: 23rd) grammar of the main family: exit 0, the multiset of (`warning:` label, name found at the printed line:column) equals the oracle's, stdout equals the library's script. distinct = distinct (grammar text, target).",
             if stride == 1 { "all four per grammar" } else { "one per grammar, round-robin (all four per status vector)" }
         )),
     );
